@@ -38,18 +38,54 @@ Proof.
   unfold s2 in *. rewrite Hr, Hm. reflexivity.
 Qed.
 
-(* a routine defined inside a routine *)
+(* a routine defined inside a routine, whatever its name *)
 Theorem reject_nested_routine f s :
   ctype s = TT_DEFINE -> ctype (next s) = TT_NAME ->
   let s2 := next (next s) in
   (has_routine s2 (ctext s2) || is_executable (ctype s2) || is_type s2 TT_BEGIN || is_type s2 TT_WITH) = true ->
-  has_routine s2 (ctext (next s)) = false -> p_in_routine s2 = true ->
+  p_in_routine s2 = true ->
   p_command (S f) s = PErr (cline s2).
 Proof.
-  intros Ht Hn s2 Hr Hd Hi. cbn [p_command]. rewrite Ht. cbn [token_type_eqb token_type_beq]. cbv zeta.
+  intros Ht Hn s2 Hr Hi. cbn [p_command]. rewrite Ht. cbn [token_type_eqb token_type_beq]. cbv zeta.
   unfold is_type at 1. rewrite Hn. cbn [token_type_eqb token_type_beq].
-  unfold s2 in *. rewrite Hr, Hd, Hi. reflexivity.
+  unfold s2 in *. rewrite Hr, Hi.
+  match goal with |- (if ?c then _ else _) = _ => destruct c end; reflexivity.
 Qed.
+
+(* a macro cannot be redefined as a routine, nor a routine as a macro or as another routine *)
+Theorem reject_macro_redefined_as_routine f s v :
+  ctype s = TT_DEFINE -> ctype (next s) = TT_NAME ->
+  let s2 := next (next s) in
+  (has_routine s2 (ctext s2) || is_executable (ctype s2) || is_type s2 TT_BEGIN || is_type s2 TT_WITH) = true ->
+  get_macro s2 (ctext (next s)) = Some v ->
+  p_command (S f) s = PErr (cline s2).
+Proof.
+  intros Ht Hn s2 Hr Hm. cbn [p_command]. rewrite Ht. cbn [token_type_eqb token_type_beq]. cbv zeta.
+  unfold is_type at 1. rewrite Hn. cbn [token_type_eqb token_type_beq].
+  unfold s2 in *. rewrite Hr, Hm. rewrite orb_true_r. reflexivity.
+Qed.
+
+Theorem reject_routine_redefined f s :
+  ctype s = TT_DEFINE -> ctype (next s) = TT_NAME ->
+  let s2 := next (next s) in
+  has_routine s2 (ctext (next s)) = true ->
+  p_command (S f) s = PErr (cline s2).
+Proof.
+  intros Ht Hn s2 Hd. cbn [p_command]. rewrite Ht. cbn [token_type_eqb token_type_beq]. cbv zeta.
+  unfold is_type at 1. rewrite Hn. cbn [token_type_eqb token_type_beq].
+  unfold s2 in *. rewrite Hd.
+  match goal with |- (if ?c then _ else _) = _ => destruct c end; [reflexivity|].
+  destruct (get_macro _ _); reflexivity.
+Qed.
+
+(* whole texts, one per documented rule (the model evaluated on concrete scripts) *)
+Example rule_breakers_rejected :
+  map parse_text
+    ["break"; "repeat 2 begin define f begin break end end"; "define m 5 assign m 6"; "define m 5 define m 6";
+     "define m 5 define m begin hue 1 end"; "define f begin hue 1 end define f 5"; "hue x"; "define f begin define g begin hue 1 end end";
+     "repeat 2 begin hue 1"; "hue {1 + 2"; "hue {(1 + 2}"; "define f with a begin hue a end hue [f 1"; "time at 25:00"; "time at 8:00 or 12:75"]
+  = [Rejected 1; Rejected 1; Rejected 1; Rejected 1; Rejected 1; Rejected 1; Rejected 1; Rejected 1; Rejected 0; Rejected 0; Rejected 1; Rejected 0; Rejected 1; Rejected 1].
+Proof. vm_compute. reflexivity. Qed.
 
 (* using an undefined name as a value *)
 Theorem reject_undefined_name f s :
